@@ -228,7 +228,8 @@ Theorem C03_passes_regenerated :
   (* the pipeline machinery (Generated/PipelineGen.v): the class attribute __idempotent__, the pre / post
      transformer lists that the constructors hand to Transformer.__init__ (as_distinct of a leaf is built from
      them), the reduction loop Transformer.linearize_reduce_transformers and cleanup are regenerated;
-     linearize_transformers / as_distinct / apply_transformers / transform / `|` / the __eq__ methods are not *)
+     linearize_transformers / as_distinct / apply_transformers / transform / `|` / the __eq__ methods: see
+     C03_pipeline_machinery_regenerated below (translator T24) *)
   (forall t, gen_is_idempotent t = is_leaf_idempotent t) /\
   (forall t, (forall ts, t <> TComp ts) ->
      as_distinct t = linearize (gen_pre_transformers t) ++ [t] ++ linearize (gen_post_transformers t)) /\
